@@ -18,17 +18,13 @@ fn show_repr(r: &ArpRepr) -> String {
 }
 
 fn gen_op(r: &mut Rng) -> u16 {
-    match r.below(5) {
-        0 | 1 => 1,
-        2 => 2,
-        _ => gen_u16(r),
-    }
+    draw_raw::<ArpOperation>(r) as u16
 }
 
 fn mk(op: u16, sha: &[u8], spa: &[u8], tha: &[u8], tpa: &[u8]) -> ArpRepr {
     let a4 = |b: &[u8]| Ipv4Address::new(b[0], b[1], b[2], b[3]);
     ArpRepr::EthernetIpv4 {
-        operation: ArpOperation::from(op),
+        operation: of_raw::<ArpOperation>((op) as u32),
         source_hardware_addr: EthernetAddress::from_bytes(sha),
         source_protocol_addr: a4(spa),
         target_hardware_addr: EthernetAddress::from_bytes(tha),
